@@ -3,7 +3,7 @@ from checks import rapid, plain, fuzz, REPLAY
 CHECK = dict(
     pkg="c03", level="exploration",
     rule="image graph (imggen: single images, OCI/Docker indexes nested <=3, schema1, artifacts, blob-typed entries, shared/duplicate/empty blobs, "
-         "inline data, sha256 and sha512 digests for blobs and manifests, OCI manifests without mediaType, foreign layers, referrers, digest tags) x endpoint pairing (same repo, same registry, two registries, registry<->layout, two layouts) "
+         "inline data, sha256 and sha512 digests for blobs and manifests, OCI manifests without mediaType, foreign layers with urls, layers of a non-distributable media type without urls hosted by the source, referrers, digest tags; target registries that negotiate manifest media types on the Accept header; layout targets whose index lists the image while the manifest file is missing; the same client first asking for referrers in another repository of the source registry where that API answers 404; requests released in pairs (a quarter of the cases)) x endpoint pairing (same repo, same registry, two registries, registry<->layout, two layouts) "
          "x pre-existing target state (empty/partial/complete/stale tag) x option set x registry feature sets x latency plan x GOMAXPROCS; oracle = independent "
          "closure walk of raw source storage compared byte-for-byte with raw target storage after a nil return (and again after Close for layouts). "
          "Non-trivial = graph has an index, a shared/duplicate blob, or a non-empty partial pre-state; distinct by (graph shape, pairing, options, pre-state class).",
